@@ -947,12 +947,23 @@ def replay_proba_search(p):
     from pyab_experiment.binning.binning import deterministic_proba
     from vf.ref.scheme import py_position_k
     keys = [dec(p["key"])] + TRICKY_KEYS
+    for L in p.get("lengths", []) or []:
+        # keys around a length threshold found in the code: ASCII, two- and three-byte fills, a multi-byte tail, and a
+        # pair differing only in the last character
+        for n in sorted({max(L - 1, 1), L, L + 1, L + 2, L + 4097, 2 * L + 3}):
+            if n > 1 << 23:
+                continue
+            keys += ["x" * n, "\u00e9" * n, "\u4e2d" * n, "x" * (n - 1) + "\u00e9", "x" * (n // 2) + "\u00fc" * (n - n // 2),
+                     "\u00e9" * (n - 1) + "a", "\u00e9" * (n - 1) + "b"]
     bad = []
     for key in keys:
         o = outcome_of(lambda: deterministic_proba(key))
         want = py_position_k(key) / 2 ** 32
         if not (o[0] == "value" and isinstance(o[1], float) and o[1] == want):
-            bad.append("key %r: %s, scheme %r" % (key, show(o), want))
+            bad.append("key %s: %s, scheme %r" % (repr(key) if len(key) <= 40 else "%r...%r (%d chars)" % (key[:8], key[-4:], len(key)),
+                                                   show(o), want))
+            if len(bad) >= 3:
+                break
     return {"reproduced": bool(bad), "expected": "top 32 bits of MD5(UTF-8(key)) / 2^32 for every key",
             "observed": "; ".join(bad[:3]) or "agrees on the witness and %d tricky keys" % len(TRICKY_KEYS)}
 
